@@ -30,6 +30,9 @@ var hostileTemplates = []string{
 	"func g(n) { {v} }; g({v})", "func g() { return {v} }; g()", "func g(n){ g(n+1) }; g(0)", "&a = a + 1; a", "&a = b; &b = a; a", "func g(n) { if n { g(n-1) } }; g({v})",
 	"x='aaaaaaaa'; i=0; while i<{n} { x=x+x; i=i+1 }", "x=[1]; i=0; while i<{n} { x=x+x; i=i+1 }", "x=[1]; i=0; while i<{m} { x=[x,x]; i=i+1 }; x", "x=[1,2]; i=0; while i<{m} { x=[x,x]; i=i+1 }; &a = x; a", "x=[{'k':1}]; i=0; while i<{m} { x=[{'a':x},x]; i=i+1 }; toStr(x)", "x=[1]; i=0; while i<{m} { x=[x,x]; i=i+1 }; `{x}`", "x=[1]; i=0; while i<{n} { x.push(i); i=i+1 }; x.len()",
 	"x=[]; x.push(x); x", "x={}; x.a=x; x", "x=[1]; x[0]=x; toStr(x)",
+	// two values with the same shared sub-structure, built separately: comparing them must stay linear in the number of containers
+	"a=[1]; i=0; while i<{m} { a=[a,a]; i=i+1 }; b=[1]; j=0; while j<{m} { b=[b,b]; j=j+1 }; a == b", "a=[{v}]; b=[{v}]; i=0; while i<{m} { a=[a,a]; b=[b,b]; i=i+1 }; a != b",
+	"a={'k':1}; b={'k':1}; i=0; while i<{m} { a={'x':a,'y':a}; b={'x':b,'y':b}; i=i+1 }; [a == b, a != b]", "a=[1]; b=[1]; i=0; while i<{m} { a=[a,a]; b=[b,b]; i=i+1 }; [[a],[a]] == [[b],[b]]",
 	// holes that leave no value: only separators, only a comment, only a block (the empty string is their value)
 	"`a{;}b`", "`a{%;%}b{ // nothing\n }c`", "x = {v}; `a{;}b{% if 0 { 1 } %}c{ // c\n}`", "`{;}{;}{;}`", "\x1e{;}{% ; %}\x1e", "`a{ {v} }b{;}c{ func g(n) { n }; g({v}) }d`",
 	"x=[1]; y=[1]; x[0]=y; y[0]=x; x==y", "x={}; y={}; x.a=y; y.a=x; x=={v}", "x=[1]; x[0]=x; x==x", "x=[1]; x[0]=x; [x]==[[x]]",
